@@ -7,7 +7,7 @@ Oracle: vf.ref_ids.
 import itertools
 
 from vf import ref_ids as R
-from vf.core import HarnessError, Tally
+from vf.core import vacuous, HarnessError, Tally
 
 LEVEL = "exploration"
 
@@ -367,13 +367,13 @@ def run(ctx):
     missing = [o for o in need if o not in tally.outcomes]
     # failures may legitimately hide some outcome classes; only complain when nothing failed
     if missing and not tally.fails:
-        raise HarnessError(f"vacuous: outcomes never observed: {missing}")
+        vacuous(tally, f"vacuous: outcomes never observed: {missing}")
     tally.sample({"cusip_base": "17275R10", "check": R.cusip_check("17275R10")})
     tally.sample({"isin_base": "AU0000XVGZA", "check": R.isin_check("AU0000XVGZA")})
     tally.sample({"cusip_base": "0*1@2#3A", "check": R.cusip_check("0*1@2#3A")})
     cov = {
-        "evaluations": tally.counts["evaluations"],
-        "distinct_nontrivial": tally.counts["evaluations"],
+        "evaluations": tally.counts.get("evaluations", 0),
+        "distinct_nontrivial": tally.counts.get("evaluations", 0),
         "rule": f"CUSIP: {cusip_digits} + every base within <=2 positions of {base_c!r} over the 39-character alphabet (incl. * @ #) and "
         f"<=1 of two more; SEDOL: all 10^6 digit bases + <=2-position variations of {base_s!r} over digits+consonants; ISIN: {isin_digits} + "
         f"<=2-position variations of {base_i!r} over alphanumerics; for the variation sets and every 10th/100th digit base: completed id validates, "
